@@ -130,10 +130,10 @@ Qed.
 
 Lemma prog0_ok : prog_ok b0 kof bof [] prog0 (g_child b0 1).
 Proof.
-  destruct child_ghost_ok as (Hh & Hs & Hex). unfold prog0. cbn [prog_ok]. split; [reflexivity|].
+  destruct child_ghost_ok as (Hh & Hs & Hex). unfold prog0. cbn [prog_ok]. split; [left; reflexivity|].
   apply ok_clone_n; [exact Hh|exact Hs|]. intros g1 S1 E1.
   apply (prog_ok_spawns _ _ _ 1); [exact S1|rewrite seq_length; rewrite E1; cbn [g_child g_refs]; rewrite Nat.eqb_refl; lia|].
-  intros g2 S2 R2. cbn [prog_ok]. split; [reflexivity|]. apply (ok_hrun b0).
+  intros g2 S2 R2. cbn [prog_ok]. split; [left; reflexivity|]. apply (ok_hrun b0).
   - unfold r0; cbn [holds]; split; [lia|apply S2].
   - exact S2.
   - unfold r0. cbn [nm]. rewrite Nat.eqb_refl. exact R2.
@@ -165,7 +165,7 @@ Proof.
     pose proof (T_init n t) as E. unfold T in E. rewrite E in Hst.
     destruct t as [|t]; cbn [Nat.eqb] in *; [cbn in Hst; discriminate|].
     split; [reflexivity|]. split; [reflexivity|]. split; [reflexivity|]. split.
-    + unfold g_init, bof. unfold child_prog. cbn [prog_ok]. split; [reflexivity|].
+    + unfold g_init, bof. unfold child_prog. cbn [prog_ok]. split; [left; reflexivity|].
       destruct child_ghost_ok as (Hh & Hs & Hex). apply (ok_hrun b0); [exact Hh|exact Hs|exact Hex|].
       intros g' S' R'. cbn [prog_ok]. split; [reflexivity|]. split; [exact R'|apply S'].
     + pose proof (T_init n (S t)) as E'. unfold T, getth in E'. unfold getth. rewrite E'. reflexivity.
@@ -234,11 +234,14 @@ Variable l0 : N.
 Variable n : nat.                       (* number of scoped threads *)
 Variable bopsf : nat -> list bop.       (* what each scoped thread does through the borrowed handle *)
 Variable ops0 : list hop.               (* what the owner does with its handle after the scope *)
+Variable nreads : nat.                  (* how often the owner reads its (lent) handle while the scope is open *)
 Let r0 := Heap b0 l0.
 Let kof := fun _ : nat => 0.
 Let bof := fun t : nat => negb (Nat.eqb t 0).
 
-Definition sprog0 : list pitem := map PLend (seq 1 n) ++ map PJoinB (rev (seq 1 n)) ++ [POp (hrun ops0 r0)].
+Definition oread : cmd unit := _ <- as_bytes r0 ;; Ret tt.
+Definition sprog0 : list pitem :=
+  map PLend (seq 1 n) ++ repeat (POp oread) nreads ++ map PJoinB (rev (seq 1 n)) ++ [POp (hrun ops0 r0)].
 Definition schild_prog (i : nat) : list pitem := [POp (brun (bopsf i) r0)].
 Definition stc0 : list tcfg :=
   {| cur := Ret tt; rest := sprog0; gh := g_child b0 1; lt := [] |}
@@ -256,13 +259,29 @@ Proof.
   intros H. cbn [List.remove]. destruct (Nat.eq_dec a a) as [_|Hne]; [|contradiction]. apply notin_remove. exact H.
 Qed.
 
-Lemma prog_ok_scope l : forall lent g rest,
-  NoDup l -> (forall i, In i l -> bof i = true /\ ~ In i lent) -> owner_ok g ->
-  (forall g', owner_ok g' -> prog_ok b0 kof bof lent rest g') ->
-  prog_ok b0 kof bof lent (map PLend l ++ map PJoinB (rev l) ++ rest) g.
+(* the owner's read-only operations while the scope is open: typed under any set of outstanding loans *)
+Lemma ro_oread : ro b0 oread.
+Proof. unfold oread, r0. cbn. auto. Qed.
+Lemma prog_ok_reads k : forall lent g rest,
+  owner_ok g -> (forall g', owner_ok g' -> prog_ok b0 kof bof lent rest g') ->
+  prog_ok b0 kof bof lent (repeat (POp oread) k ++ rest) g.
 Proof.
-  induction l as [|a l IH]; intros lent g rest Hnd Hl Hg HQ.
-  - cbn [map rev app]. apply HQ. exact Hg.
+  induction k as [|k IH]; intros lent g rest Hg HQ; cbn [repeat app].
+  - apply HQ. exact Hg.
+  - cbn [prog_ok]. split; [right; exact ro_oread|]. unfold oread. apply okc_bind.
+    destruct Hg as (H1 & H2 & H3 & H4). apply ok_as_bytes; [exact H1|]. intros t. cbn [okc].
+    apply IH; [exact (conj H1 (conj H2 (conj H3 H4)))|exact HQ].
+Qed.
+
+Lemma prog_ok_scope l : forall lent g mid rest,
+  NoDup l -> (forall i, In i l -> bof i = true /\ ~ In i lent) -> owner_ok g ->
+  (forall lent' g' r', owner_ok g' -> (forall g'', owner_ok g'' -> prog_ok b0 kof bof lent' r' g'') ->
+                       prog_ok b0 kof bof lent' (mid ++ r') g') ->
+  (forall g', owner_ok g' -> prog_ok b0 kof bof lent rest g') ->
+  prog_ok b0 kof bof lent (map PLend l ++ mid ++ map PJoinB (rev l) ++ rest) g.
+Proof.
+  induction l as [|a l IH]; intros lent g mid rest Hnd Hl Hg Hmid HQ.
+  - cbn [map rev app]. apply Hmid; [exact Hg|exact HQ].
   - cbn [map rev app prog_ok]. inversion Hnd as [|? ? Hna Hnd']; subst.
     destruct (Hl a (or_introl eq_refl)) as (Hb & Hnl). destruct Hg as (H1 & H2 & H3 & H4).
     split; [rewrite H3; lia|]. split; [exact H4|]. split; [exact Hb|].
@@ -272,6 +291,7 @@ Proof.
     + intros i Hi. destruct (Hl i (or_intror Hi)) as (Hbi & Hni). split; [exact Hbi|].
       intros [E|Hin]; [subst; contradiction|contradiction].
     + apply owner_ok_lendout. exact (conj H1 (conj H2 (conj H3 H4))).
+    + exact Hmid.
     + intros g' Hg'. cbn [prog_ok]. split; [left; reflexivity|]. rewrite remove_head_notin by exact Hnl. apply HQ. exact Hg'.
 Qed.
 
@@ -282,7 +302,8 @@ Proof.
   - intros i Hi. apply in_seq in Hi. split; [|intros []]. unfold bof. destruct i; [lia|reflexivity].
   - unfold owner_ok, r0. cbn [holds g_child g_refs g_free g_bor]. rewrite Nat.eqb_refl.
     split; [split; [lia|reflexivity]|]. split; [intros b; reflexivity|]. split; reflexivity.
-  - intros g' (H1 & H2 & H3 & H4). cbn [prog_ok]. split; [reflexivity|]. apply (ok_hrun b0); [exact H1|exact H2| |].
+  - intros lent' g' r' Hg' HQ'. apply prog_ok_reads; assumption.
+  - intros g' (H1 & H2 & H3 & H4). cbn [prog_ok]. split; [left; reflexivity|]. apply (ok_hrun b0); [exact H1|exact H2| |].
     + unfold r0. cbn [nm]. rewrite Nat.eqb_refl. exact H3.
     + intros g2 S2 R2. cbn [prog_ok]. split; [reflexivity|]. split; [exact R2|apply S2].
 Qed.
@@ -313,7 +334,7 @@ Proof.
     pose proof (T_init n t) as E. unfold T in E. rewrite E in Hst.
     destruct t as [|t]; cbn [Nat.eqb] in *; [cbn in Hst; discriminate|].
     split; [reflexivity|]. unfold g_init, bof. cbn [Nat.eqb negb]. split; [reflexivity|]. split; [reflexivity|]. split.
-    + unfold schild_prog. cbn [prog_ok]. split; [reflexivity|]. apply (ok_brun b0 l0).
+    + unfold schild_prog. cbn [prog_ok]. split; [left; reflexivity|]. apply (ok_brun b0 l0).
       * cbn [borrows g_childb g_bor g_free]. rewrite Nat.eqb_refl. auto.
       * intros b. reflexivity.
       * reflexivity.
